@@ -21,7 +21,7 @@ EXPLANATION = (
     '(c) every concrete primitive implements _decode/encode/dna_spec; (d) '
     'candidates are validated before a value spec is bound, and bound tests '
     'use `is not None` (0 is a bound).  The decode/encode inverse law is not decided.')
-FLOORS = {'C13.a': 2, 'C13.b': 3, 'C13.c': 2, 'C13.d': 2, 'C13.e': 3}
+FLOORS = {'C13.a': 2, 'C13.b': 3, 'C13.c': 2, 'C13.d': 2, 'C13.e': 3, 'C13.z': 2}
 FILES = ['pyglove/core/hyper/object_template.py', 'pyglove/core/hyper/categorical.py',
          'pyglove/core/hyper/numerical.py', 'pyglove/core/hyper/custom.py',
          'pyglove/core/hyper/base.py', 'pyglove/core/hyper/iter.py',
@@ -255,4 +255,5 @@ def run(ctx):
   rule_c(ctx)
   rule_d(ctx)
   rule_e(ctx)
+  S.optional_truthiness_obligations(ctx, 'C13.z', ['pyglove/core/hyper/categorical.py', 'pyglove/core/hyper/numerical.py', 'pyglove/core/hyper/object_template.py', 'pyglove/core/hyper/base.py'], 'choice 0 and bound 0.0 are values')
   ctx.assume('decode/encode inverse law, shape of decoded values and iteration counts are not decided')
